@@ -119,7 +119,9 @@ def run(prog, rep, tier, repo):
         f = prog.func(k)
         mm = [r for r in f.return_values() if tag(r) == 'call' and r[1].endswith('utils::matmul')]
         okmm = len(mm) == 1 and mm[0][2][4] == ('const', 'bool', True) and mm[0][2][5] == ('const', 'bool', False) and mm[0][2][0] == ('arg', 2, f.names.get(2))
-        if ok and okmm:
+        if not goods or not mm:
+            rep.undecided('score-form', key, 'closed form of the information matrix not extracted (elements %s, matmul call %s)' % (show_expr(ret)[:80], bool(mm)), site_of(pdb.bodies[k]), proof=False)
+        elif ok and okmm:
             rep.ok('score-form', key, 'information = X^T diag(w dmu^2/var) X')
         else:
             rep.viol('score-form', key, 'information is %s (matmul flags ok: %s), expected X^T diag(w dmu^2/var) X' % (show_expr(frozenset(goods))[:200], okmm), site_of(pdb.bodies[k]))
@@ -139,28 +141,87 @@ def run(prog, rep, tier, repo):
     for s in f.stores():
         if tag(s.target) == 'local' and s.target[2]:
             loc.setdefault(s.target[2], []).append(s)
-    # Newton step
+    # Newton step (by shape, not by variable names): a store  L := vsub(L, solve(H, g))
     key = 'fit-loop:newton-step'
-    cs = [s for s in loc.get('coef', []) if tag(s.value) == 'call' and short(s.value[1]) == 'vsub']
-    ok = False
-    if len(cs) == 1:
-        a, b = cs[0].value[2]
-        ok = tag(a) == 'local' and a[2] == 'coef' and tag(b) == 'call' and b[1].endswith('utils::solve') and \
-            tag(b[2][0]) == 'call' and short(b[2][0][1]) == 'compute_ddbeta' and tag(b[2][1]) == 'call' and short(b[2][1][1]) == 'compute_dbeta'
-        # the penalties are applied to these very buffers before the solve
+
+    def deref_local(t, depth=0):
+        """value of a single-purpose multi-definition local when all its definitions are one and the same call shape"""
+        if tag(t) == 'local' and depth < 3:
+            defs = [st.value for st in f.stores() if st.target == t]
+            calls_ = [d for d in defs if tag(d) == 'call']
+            if calls_ and len({d[1] for d in calls_}) == 1 and len(calls_) == len(defs):
+                return calls_[0]
+        return t
+    steps = []
+    for st in f.stores():
+        v = st.value
+        if tag(st.target) == 'local' and tag(v) == 'call' and short(v[1]) in ('vsub', 'vadd') and len(v[2]) == 2 and v[2][0] == st.target:
+            b = deref_local(v[2][1])
+            if tag(b) == 'call' and b[1].endswith('utils::solve'):
+                steps.append((st, b))
+    coef_local = None
+    if len(steps) != 1:
+        rep.undecided('fit-loop', key, 'no unique update of the form L := vsub(L, solve(H, g)) found', site_of(f.body), proof=False)
+    else:
+        st, b = steps[0]
+        coef_local = st.target
+        H, g_ = deref_local(b[2][0]), deref_local(b[2][1])
+        okh = tag(H) == 'call' and short(H[1]) == 'compute_ddbeta'
+        okg = tag(g_) == 'call' and short(g_[1]) == 'compute_dbeta'
         pen = [c for c in f.calls() if c.path in (G + '::apply_dbeta_penalty', G + '::apply_ddbeta_penalty')]
-        okp = len(pen) == 2 and all(f.cfg.can_reach(c.bb, cs[0].bb) for c in pen) and \
+        okp = len(pen) == 2 and all(f.cfg.can_reach(c.bb, st.bb) for c in pen) and \
             all(any(tag(cn) == 'bin' and cn[1] == 'Gt' and cn[2] == ('field', me, 1, 'f64') and v is True for cn, v in f.guards().get(c.bb, [])) for c in pen)
-        ok = ok and okp
-    (rep.ok if ok else rep.viol)('fit-loop', key, 'coef := coef - solve(information, gradient), penalties applied to both when alpha > 0' if ok else
-                                 'the update is not coef - solve(ddbeta, dbeta) with both penalties applied under alpha > 0', site_of(f.body))
-    # offsets
+        # the penalties act on the very buffers that enter the solve
+        okb = all(any(deref_local(a) in (H, g_) or a in (b[2][0], b[2][1]) for a in c.args) for c in pen)
+        if short(st.value[1]) == 'vadd':
+            rep.viol('fit-loop', key, 'the update adds the Newton step (L := L + solve(H, g)); with g the gradient of the deviance the step must be subtracted', site_of(f.body))
+        elif okh and okg and okp and okb:
+            rep.ok('fit-loop', key, 'coef := coef - solve(information, gradient), penalties applied to both when alpha > 0')
+        else:
+            rep.viol('fit-loop', key, 'the update is L - solve(%s, %s): expected solve(compute_ddbeta(..), compute_dbeta(..)) with both penalties applied to these buffers under alpha > 0 '
+                     '(penalty calls: %d, guarded/placed: %s, on the solve operands: %s)' % (show(H)[:40], show(g_)[:40], len(pen), okp, okb), site_of(f.body))
+    # offsets: the argument of inv_link is X.coef, plus the offsets when they are set
     key = 'fit-loop:offsets'
-    es = loc.get('eta', [])
-    off = ('field', ('downcast', ('field', me, fields.get('offsets', 4), None), 1), 0, None)
-    ok = any(tag(s.value) == 'call' and short(s.value[1]) == 'vadd' and tag(s.value[2][0]) == 'local' and s.value[2][0][2] == 'eta' and _is_offsets(s.value[2][1], me, fields) for s in es) and \
-        any(tag(s.value) == 'call' and s.value[1].endswith('utils::matmul') and s.value[2][0] == x for s in es)
-    (rep.ok if ok else rep.viol)('fit-loop', key, 'eta = X.coef (+ offsets when set)' if ok else 'the linear predictor does not add the offsets', site_of(f.body))
+    inv = [c for c in f.calls() if c.path and short(c.path) == 'inv_link']
+    if not inv:
+        rep.undecided('fit-loop', key, 'no inv_link call found', site_of(f.body), proof=False)
+    else:
+        eta = inv[0].args[1]
+
+        def alternatives(t, fn, depth=0):
+            """value alternatives of the linear predictor: definitions of a multi-definition local, return sites of an in-crate helper"""
+            if tag(t) == 'local' and depth < 3:
+                out = []
+                for st in fn.stores():
+                    if st.target == t:
+                        out += alternatives(st.value, fn, depth + 1) if st.value != t else []
+                return out or [(t, fn)]
+            if tag(t) == 'call' and t[1] in pdb.bodies and t[1].startswith(G) and depth < 3:
+                h = prog.func(t[1])
+                rep.touch(t[1])
+                out = []
+                for r in h.return_values():
+                    out += alternatives(r, h, depth + 1)
+                return out or [(t, fn)]
+            return [(t, fn)]
+        alts = alternatives(eta, f)
+
+        def has_matmul(t, fn, depth=0):
+            for z in subterms(t):
+                if tag(z) == 'call' and z[1].endswith('utils::matmul'):
+                    return True
+                if tag(z) == 'local' and depth < 3 and any(has_matmul(st.value, fn, depth + 1) for st in fn.stores() if st.target == z and st.value != z):
+                    return True
+            return False
+        plain = [a for a, fn in alts if has_matmul(a, fn)]
+        with_off = [a for a, fn in alts if tag(a) == 'call' and short(a[1]) == 'vadd' and any(
+            tag(z) == 'field' and tag(z[1]) == 'arg' and z[1][1] == 1 and z[2] == fields.get('offsets') for z in subterms(a))]
+        if with_off and plain:
+            rep.ok('fit-loop', key, 'eta = X.coef (+ offsets when set)')
+        elif plain and not with_off:
+            rep.viol('fit-loop', key, 'the linear predictor passed to inv_link is X.coef in every alternative (%s): the offsets are never added' % [show(a)[:40] for a in plain][:2], site_of(f.body))
+        else:
+            rep.undecided('fit-loop', key, 'linear predictor %s not read' % show(eta)[:60], site_of(f.body), proof=False)
     # ------------------------------------------------------------------ D3 Err/Ok discipline
     key = 'fit-loop:error-exit'
     err_bbs, ok_bbs = [], []
@@ -169,28 +230,60 @@ def run(prog, rep, tier, repo):
             p = d[3].agg.get('path', '')
             if p.startswith('std::result::Result'):
                 (err_bbs if d[3].agg.get('variant') == 1 else ok_bbs).append(d[1])
-    okerr = False
-    nit = [s.target for s in loc.get('n_iter', [])][:1]
 
-    def is_conv(cn):
-        return (tag(cn) == 'call' and cn[1] == G + '::has_converged') or (tag(cn) == 'local' and cn[2] == 'is_converged')
-    conv = [True]
-    if len(err_bbs) == 1 and len(ok_bbs) == 1 and nit:
+    def is_conv(cn, depth=0):
+        if tag(cn) == 'call' and cn[1] == G + '::has_converged':
+            return True
+        if tag(cn) == 'local' and f.body.local_ty(cn[1]) == 'bool' and depth < 3:
+            defs = [st.value for st in f.stores() if st.target == cn]
+            return bool(defs) and all(is_conv(d, depth + 1) or (tag(d) == 'const' and d[2] is False) for d in defs) and any(is_conv(d, depth + 1) for d in defs)
+        if tag(cn) == 'field' and tag(cn[1]) == 'local' and depth < 3:
+            # component of a tuple handed out of `loop { .. break (.., done) }`
+            defs = [st.value for st in f.stores() if st.target == cn[1] and tag(st.value) == 'agg' and cn[2] < len(st.value[3])]
+            return bool(defs) and all(is_conv(d[3][cn[2]], depth + 1) for d in defs)
+        return False
+
+    def limit_op(cn, v):
+        """'Ge' / 'Gt' when (cn is v) means step counter >= / > max_iter, else None"""
+        if tag(cn) == 'bin' and cn[1] in ('Ge', 'Gt', 'Lt', 'Le') and maxit in (cn[2], cn[3]) and isinstance(v, bool):
+            other = cn[3] if cn[2] == maxit else cn[2]
+            op = cn[1] if cn[2] == other else {'Lt': 'Gt', 'Le': 'Ge', 'Gt': 'Lt', 'Ge': 'Le'}[cn[1]]
+            if not v:
+                op = {'Lt': 'Ge', 'Le': 'Gt', 'Gt': 'Le', 'Ge': 'Lt'}[op]
+            return op if op in ('Ge', 'Gt') else None
+        return None
+
+    def is_limit(cn, v):
+        return limit_op(cn, v) is not None
+    if len(err_bbs) != 1 or not ok_bbs:
+        rep.undecided('fit-loop', key, 'Err/Ok return sites not recognised (%d / %d)' % (len(err_bbs), len(ok_bbs)), site_of(f.body), proof=False)
+    else:
         gs = f.guards().get(err_bbs[0], [])
-        c1 = any(tag(cn) == 'bin' and cn[1] == 'Ge' and cn[2] == nit[0] and cn[3] == maxit and v is True for cn, v in gs)
-        c2 = any((is_conv(cn) and v is False) or (tag(cn) == 'un' and cn[1] == 'Not' and is_conv(cn[2]) and v is True) for cn, v in gs)
-        okerr = c1 and c2
-    # loop exit: n_iter >= max_iter || is_converged
-    loops = f.cfg.loops()
-    okexit = False
-    for h, blocks in loops.items():
-        exits = [(cn, v) for s, d, cn, v in f.edge_conditions() if s in blocks and d not in blocks]
-        e1 = any(tag(cn) == 'bin' and cn[1] == 'Ge' and nit and cn[2] == nit[0] and cn[3] == maxit and v is True for cn, v in exits)
-        e2 = any(is_conv(cn) and v is True for cn, v in exits)
-        if e1 and e2:
-            okexit = True
-    (rep.ok if okerr and okexit else rep.viol)('fit-loop', key, 'loop leaves on n_iter >= max_iter || converged; Err exactly when n_iter >= max_iter && !converged' if okerr and okexit else
-                                              'the Err/Ok exits are not governed by (n_iter >= max_iter, converged): a non-converged fit could be reported as success', site_of(f.body))
+        notconv = any((is_conv(cn) and v is False) or (tag(cn) == 'un' and cn[1] == 'Not' and is_conv(cn[2]) and v is True) for cn, v in gs)
+        okconv = all(any((is_conv(cn) and v is True) or (tag(cn) == 'un' and cn[1] == 'Not' and is_conv(cn[2]) and v is False) for cn, v in f.guards().get(bb, [])) or
+                     any(is_limit(cn, (not v) if isinstance(v, bool) else v) for cn, v in f.guards().get(bb, [])) for bb in ok_bbs)
+        any_conv_guard = any(is_conv(cn) or (tag(cn) == 'un' and is_conv(cn[2])) for bb in err_bbs + ok_bbs for cn, v in f.guards().get(bb, []))
+        if not okconv:
+            # Ok is the fall-through of `if limit && !converged { return Err }` after a loop that is left only on (limit || converged):
+            # then Ok implies converged
+            err_limit = any(is_limit(cn, v) for cn, v in gs)
+            loops_ = f.cfg.loops()
+            main_ = max(loops_.items(), key=lambda kv: len(kv[1])) if loops_ else None
+            if main_ is not None and err_limit and notconv:
+                exits_ = [(cn, v) for s_, d_, cn, v in f.edge_conditions() if s_ in main_[1] and d_ not in main_[1] and not f.cfg.only_panics_from(d_) and tag(cn) != 'discr']
+                okconv = bool(exits_) and all(is_limit(cn, v) or (is_conv(cn) and v is True) or (tag(cn) == 'un' and cn[1] == 'Not' and is_conv(cn[2]) and v is False)
+                                             for cn, v in exits_)
+                # the Err test must hold whenever the loop was left at the limit: its comparison may not be stricter than the loop's
+                ex_ops = {limit_op(cn, v) for cn, v in exits_ if is_limit(cn, v)}
+                er_ops = {limit_op(cn, v) for cn, v in gs if is_limit(cn, v)}
+                if 'Ge' in ex_ops and er_ops == {'Gt'}:
+                    okconv = False
+        if notconv and okconv:
+            rep.ok('fit-loop', key, 'Err is returned only when the convergence test failed; Ok only when it succeeded')
+        elif not any_conv_guard:
+            rep.undecided('fit-loop', key, 'the convergence flag guarding the Err/Ok exits was not traced', site_of(f.body), proof=False)
+        else:
+            rep.viol('fit-loop', key, 'the Err/Ok exits are not governed by the convergence test: a non-converged fit could be reported as success', site_of(f.body))
     # ------------------------------------------------------------------ stored results
     key = 'fit-loop:stored-results'
     w = {}
@@ -202,7 +295,7 @@ def run(prog, rep, tier, repo):
     def some(v):
         return v[3][0] if tag(v) == 'agg' and v[1] == 'adt' and v[2].startswith('std::option::Option') and v[3] else None
     cv = some(w.get(fields.get('coef'), ()))
-    if not (tag(cv) == 'local' and cv[2] == 'coef'):
+    if coef_local is not None and cv is not None and cv != coef_local and not (tag(cv) == 'call' and short(cv[1]) in ('clone', 'to_vec') and cv[2][0] == coef_local):
         problems.append('self.coef is not the final iterate')
     dv = some(w.get(fields.get('deviance'), ()))
     if not (tag(dv) == 'call' and dv[1] == FAM + '::deviance' and dv[2][1] == y):
